@@ -51,7 +51,7 @@ class Pool:
         if isinstance(b, Time):
             return _h(np.asarray(b.jd1).tobytes() + np.asarray(b.jd2).tobytes() + str((b.scale, b.format, b.shape)).encode())
         if isinstance(b, u.Quantity):
-            v = np.asarray(b.value)
+            v = b.view(np.ndarray) if type(b).__name__ == "Phase" else np.asarray(b.value)     # Phase: the raw two-part buffer
             return _h(np.ascontiguousarray(v).tobytes() + str((v.shape, v.dtype, str(b.unit), type(b).__name__)).encode())
         return _h(np.ascontiguousarray(b).tobytes() + str((b.shape, b.dtype, b.strides)).encode())
 
@@ -285,6 +285,84 @@ def more_arg_events(rnd, eid0):
     return events
 
 
+def extreme_arg_events(rnd, eid0):
+    """Array / Quantity / Phase arguments in unusual value regimes (shifts beyond the signal length, huge, tiny,
+    exactly zero, 0-d arrays) and forms (float64 arrays that a no-copy conversion would alias, copy=False
+    conversions): every argument object registered before the call, the same objects passed twice."""
+    from common import pb, u
+    events = []
+    calls = []
+    for kind in ("dp", "bb", "in"):
+        z = make_root({"kind": kind, "contig": True}, rnd)
+        n = len(z)
+        ch = z.shape[1]
+        vals = [[n + 5.0, -1.25], [-(n + 0.5), 0.0], [1e6, -1e6], [1e-12, 0.0], [0.0, 0.0], [float(n), -float(n)], [0.25, n * 3.0]]
+        for v in vals:
+            for crop in (False, True):
+                a = np.array(v[:ch] if ch <= 2 else (v * ch)[:ch], dtype=np.float64)
+                calls.append((z, "time_shift_crop" if crop else "time_shift", [a], lambda z=z, a=a, crop=crop: pb.time_shift(z, a, crop=crop)))
+            a0 = np.array(v[0], dtype=np.float64)                     # 0-d float64 array
+            calls.append((z, "time_shift", [a0], lambda z=z, a0=a0: pb.time_shift(z, a0)))
+            q = (np.array(v[:1], dtype=np.float64) / z.sample_rate.to_value(u.Hz)) * u.s
+            calls.append((z, "time_shift", [q], lambda z=z, q=q: pb.time_shift(z, q[0])))
+            if kind != "in":
+                f = np.array([v[0] / n, v[1] / n][:ch] if ch <= 2 else ([v[0] / n] * ch), dtype=np.float64) * z.sample_rate.unit
+                f = f * z.sample_rate.value
+                calls.append((z, "freq_shift", [f], lambda z=z, f=f: pb.freq_shift(z, f)))
+        for t in (np.array(2.0), np.array(2.5), np.array(float(n)), np.array(-1.0), np.array(0.0)):
+            calls.append((z, "snippet_int" if float(t) == int(t) else "snippet_frac", [t], lambda z=z, t=t: pb.snippet(z, t, 3)))
+    for z, name, argobjs, call in calls:
+        P = Pool()
+        zb = P.buf_id(z.data)
+        P.sigs.append((z, zb))
+        for a in argobjs:
+            P.buf_id(a)
+        for rep in (0, 1):
+            pre, mpre = P.hashes(), P.metas()
+            try:
+                call()
+                raised = ""
+            except Exception as e:  # noqa
+                raised = repr(e)[:200]
+            events.append({"id": eid0 + len(events), "ev": "call", "op": name, "argbuf": zb, "pre": pre,
+                           "post": P.hashes(), "mpre": mpre, "mpost": P.metas(), "raised": raised,
+                           "case": {"extreme": name, "rep": rep, "args": [repr(a)[:80] for a in argobjs]}})
+    # conversions of Phase objects (a Quantity subclass over a two-part buffer): the object converted is an argument
+    z = make_root({"kind": "in", "contig": True}, rnd)
+    for im in (False, True):
+        mk = lambda: pb.Phase(np.array([3.0, -7.0, 1e9]), np.array([0.25, -0.125, 0.4]) ) * (1j if im else 1)    # noqa
+        convs = [("astype-f8-nocopy", lambda p: p.astype(np.float64, copy=False)),
+                 ("astype-f8", lambda p: p.astype(np.float64)),
+                 ("astype-f4-nocopy", lambda p: p.astype(np.float32, copy=False)),
+                 ("astype-unsafe-i8", lambda p: p.astype(np.int64, casting="unsafe", copy=False)),
+                 ("astype-c16-nocopy", lambda p: p.astype(np.complex128, copy=False)),
+                 ("astype-own", lambda p: p.astype(p.dtype, copy=False)),
+                 ("to_value", lambda p: p.to_value(u.cycle)), ("to-rad", lambda p: p.to(u.rad)), ("value", lambda p: p.value),
+                 ("asarray", lambda p: np.asarray(p)), ("array-nocopy", lambda p: np.asarray(p, dtype=np.float64)),
+                 ("cycle", lambda p: p.cycle), ("int-frac", lambda p: (p.int, p.frac)), ("str", lambda p: str(p)),
+                 ("to_string", lambda p: p.to_string()), ("neg", lambda p: -p), ("add", lambda p: p + p), ("mul", lambda p: p * 2.0),
+                 ("cmp", lambda p: p < p), ("sort", lambda p: np.sort(p)), ("min", lambda p: p.min()), ("copy", lambda p: p.copy()),
+                 ("getitem", lambda p: p[1:]), ("isclose", lambda p: np.isclose(p, p)), ("float0", lambda p: float(p[0])),
+                 ("imag-real", lambda p: (p.imag, p.real))]
+        for cname, conv in convs:
+            p = mk()
+            P = Pool()
+            zb = P.buf_id(z.data)
+            P.sigs.append((z, zb))
+            P.buf_id(p)
+            for rep in (0, 1):
+                pre, mpre = P.hashes(), P.metas()
+                try:
+                    conv(p)
+                    raised = ""
+                except Exception as e:  # noqa
+                    raised = repr(e)[:200]
+                events.append({"id": eid0 + len(events), "ev": "call", "op": "api_call", "argbuf": zb, "pre": pre,
+                               "post": P.hashes(), "mpre": mpre, "mpost": P.metas(), "raised": raised,
+                               "case": {"phase-conversion": cname, "imag": im, "rep": rep}})
+    return events
+
+
 def arg_events(rnd, eid0):
     """Direct calls with array / Quantity arguments whose pre-hash is known (arguments are registered
     before the call)."""
@@ -359,6 +437,7 @@ def run(chk):
         cases += part
     events = arg_events(rnd, 0)
     events += more_arg_events(rnd, len(events))
+    events += extreme_arg_events(rnd, len(events))
     opcount = {}
     for c in cases:
         ev = replay_behaviour(c, rnd, len(events))
@@ -401,6 +480,8 @@ def replay(doc):
     rnd = random.Random(c["seed"])
     if "direct2" in c["case"]:
         evs = [e for e in more_arg_events(rnd, 0) if e["case"] == c["case"]]
+    elif "extreme" in c["case"] or "phase-conversion" in c["case"]:
+        evs = [e for e in extreme_arg_events(rnd, 0) if e["case"] == c["case"]]
     elif "direct" in c["case"]:
         evs = [e for e in arg_events(rnd, 0) if e["case"] == c["case"]]
     else:
